@@ -358,14 +358,15 @@ theorem wstep_sim (gate : Status → Method → Bool) (hG : gateEq gate refWspGa
           refine mstep_455 .wsp _ _ hopen rfl rfl rfl rfl htd hopt hc' rfl rfl rfl ?_
           intro hm
           have hg' : refWspGate s.status r.method = false := by simpa using hg
-          have hm' : r.method = .describe ∨ r.method = .announce ∨ r.method = .setup := by
-            rcases hm with hm | hm | hm | ⟨_, hm⟩
+          have hm' : r.method = .describe ∨ r.method = .announce ∨ r.method = .setup ∨ r.method = .pause := by
+            rcases hm with hm | hm | hm | ⟨_, hm⟩ | ⟨hm, _⟩
             · exact Or.inl hm
             · exact Or.inr (Or.inl hm)
-            · exact Or.inr (Or.inr hm)
+            · exact Or.inr (Or.inr (Or.inl hm))
             · cases hm
+            · exact Or.inr (Or.inr (Or.inr hm))
           show legal .wsp (wabsPhase s) r.method = false
-          rcases hm' with hm | hm | hm <;>
+          rcases hm' with hm | hm | hm | hm <;>
             rw [hm] at hg' ⊢ <;>
             cases hs : s.status <;> cases hd : s.described <;> simp [refWspGate, hs] at hg' <;>
             simp [wabsPhase, hc', hs, hd, legal]
